@@ -919,3 +919,40 @@ def c16_special(pid, prop, tier, seed, b):
         if f:
             failures.append((c, f))
     return cases, impl_lines, failures, [], dict()
+
+
+# ------------------------------------------------------------------ C15: driver stream + native fuzzing
+
+def c15_special(pid, prop, tier, seed, b):
+    import registry
+    cases, impl, failures, disagreements = registry.collect_generic(pid, prop, tier, seed, b)
+    secs = 20 if tier == 'quick' else 300
+    cache = tempfile.mkdtemp(prefix='verif.fuzz.', dir='/var/tmp')
+    crash_dir = os.path.join(REPO, 'testdata', 'fuzz', 'FuzzSequenceAPI')
+    before = set(os.listdir(crash_dir)) if os.path.isdir(crash_dir) else set()
+    try:
+        rc, out = infra.sh('cd %s && go test -tags verif -vet=off -run "^$" -fuzz FuzzSequenceAPI -fuzztime %ds -test.fuzzcachedir %s .' % (REPO, secs, cache),
+                           env=dict(GOENV), timeout=secs + 600)
+    finally:
+        shutil.rmtree(cache, ignore_errors=True)
+    m = re.findall(r'execs: (\d+)', out)
+    execs = int(m[-1]) if m else 0
+    c = dict(line='go-fuzz FuzzSequenceAPI %ds' % secs, text='native fuzzing of the parsing/formatting API with arbitrary templates (%d executions)' % execs,
+             shape='native-fuzz', meta={}, nontrivial=True, args=[], op='fuzz', impl=out[-600:])
+    cases.append(c)
+    impl.append('OK' if rc == 0 else 'FAIL')
+    if rc != 0:
+        crash = ''
+        after = set(os.listdir(crash_dir)) if os.path.isdir(crash_dir) else set()
+        for fn in sorted(after - before):
+            p_ = os.path.join(crash_dir, fn)
+            crash += open(p_, errors='replace').read()[:1500]
+            os.remove(p_)                       # keep /repo clean; the crasher goes into the replay
+        for d in (crash_dir, os.path.dirname(crash_dir)):
+            try:
+                os.rmdir(d)
+            except OSError:
+                pass
+        c['impl'] = (out[-1200:] + '\n--- crasher ---\n' + crash)[:3000]
+        failures.append((c, ['the fuzz target failed (panic or hang): ' + (re.search(r'(panic: [^\n]*|--- FAIL[^\n]*)', out) or [''])[0][:300]]))
+    return cases, impl, failures, disagreements, dict(fuzz_executions=execs)
